@@ -15692,7 +15692,9 @@ func (p *PathAttributeTunnelEncap) DecodeFromBytes(data []byte, options ...*Mars
 	if err != nil {
 		return err
 	}
-	for len(value) > 4 {
+	// >= : a TLV header that is exactly the last 4 octets still has to be checked
+	// against what is left (TunnelEncapTLV.DecodeFromBytes reports the overrun)
+	for len(value) >= 4 {
 		tlv := &TunnelEncapTLV{}
 		err = tlv.DecodeFromBytes(value)
 		if err != nil {
